@@ -497,7 +497,9 @@ def check_all(rep, ex: Explorer, only=None):
         # the remaining family advanced, ....  Where it cannot discharge an obligation although the evaluation above has found
         # the function right on every base of 0..3 conditionals in both modes, the loop is written in a shape the generic
         # reading does not know (answers collected first and split afterwards, lists kept in a mapping keyed by the verdict, ...):
-        # that is recorded, not reported.  Where the evaluation has found a fault the generic reading's findings stand.
+        # that is recorded, not reported - for the obligation that is purely about that shape (PART.split: "two lists").  What
+        # the remaining family starts with and how it advances (PART.entry / advance / terminal) stands: slips there need not
+        # show on three distinct conditionals.  Where the evaluation has found a fault all findings stand.
         from ..report import Report as _Report
 
         site_ = fn_label(ex.prog, qual)
@@ -507,7 +509,7 @@ def check_all(rep, ex: Explorer, only=None):
         scratch.known = {"findings": [], "fixed": []}
         try:
             st_ = check_function(scratch, ex, qual, role)
-            if scratch.violations and not eval_bad:
+            if scratch.violations and not eval_bad and all(v_["rule"] == "PART.split" for v_ in scratch.violations):
                 rep.ok("PART.partition", site_, "generic reading", "the layer loop is not in a shape the generic rules read (" + "; ".join(sorted({v_["rule"] + " " + v_["slot"] for v_ in scratch.violations}))[:160] +
                        "); decided by evaluation on bases of 0..3 conditionals only")
                 stats[qual] = None
